@@ -80,7 +80,10 @@ def _verify_case(repo, reg, c, ci, case, canary):
     params = dict(c.params)
     params.update(case)
     hooks = stmt_hooks_for(c, fnode, mod)
-    prefix = "%s/%s:%s%s" % (c.prop, c.rel, c.qual, ("[case%d]" % ci) if c.cases else "")
+    variants = reg.contracts.get((c.rel, c.qual), [])
+    vi = variants.index(c) if c in variants else 0
+    prefix = "%s/%s:%s%s%s" % (c.prop, c.rel, c.qual, ("[v%d]" % vi) if len(variants) > 1 else "",
+                               ("[case%d]" % ci) if c.cases else "")
     for round_ in range(8):
         E.loop_w_changed = False
         res.obligations = []
